@@ -394,6 +394,73 @@ func dispatch(op string, a []val) string {
 		p1 := &babyjub.PointProjective{X: ff.NewElement().SetBigInt(a[0].i), Y: ff.NewElement().SetBigInt(a[1].i), Z: ff.NewElement().SetBigInt(a[2].i)}
 		p2 := &babyjub.PointProjective{X: ff.NewElement().SetBigInt(a[3].i), Y: ff.NewElement().SetBigInt(a[4].i), Z: ff.NewElement().SetBigInt(a[5].i)}
 		return kP(babyjub.NewPointProjective().Add(p1, p2).Affine())
+	case "paddalias": // k x1 y1 x2 y2: receiver / operand aliasing of PointProjective.Add
+		p1, p2 := mkPoint(a[1].i, a[2].i).Projective(), mkPoint(a[3].i, a[4].i).Projective()
+		k1, k2 := *p1.X, *p2.X
+		var r *babyjub.PointProjective
+		switch a[0].i.Int64() {
+		case 1: // p == q
+			r = p1.Add(p1, p2)
+			if *p2.X != k2 {
+				return "OPERAND-CHANGED"
+			}
+		case 2: // p == o
+			r = p2.Add(p1, p2)
+			if *p1.X != k1 {
+				return "OPERAND-CHANGED"
+			}
+		case 3: // q == o (one object), fresh receiver
+			r = babyjub.NewPointProjective().Add(p1, p1)
+			if *p1.X != k1 {
+				return "OPERAND-CHANGED"
+			}
+		default: // p == q == o
+			r = p1.Add(p1, p1)
+		}
+		return kP(r.Affine())
+	case "mulzero": // zero-value receiver
+		return kP(new(babyjub.Point).Mul(a[0].i, mkPoint(a[1].i, a[2].i)))
+	case "mulshared": // the receiver shares its big.Ints with the argument point
+		q := mkPoint(a[1].i, a[2].i)
+		p := &babyjub.Point{X: q.X, Y: q.Y}
+		r := p.Mul(a[0].i, q)
+		if q.X.Cmp(a[1].i) != 0 || q.Y.Cmp(a[2].i) != 0 {
+			return "OPERAND-CHANGED"
+		}
+		return pt(p) + " " + pt(r)
+	case "signverify": // one chain on the implementation's own objects: sign, encode, decode, verify
+		k := babyjub.PrivateKey(arr32(a[1].b))
+		var sig *babyjub.Signature
+		var err error
+		if a[0].tok == "p" {
+			sig, err = k.SignPoseidon(a[2].i)
+		} else {
+			sig, err = k.SignMimc7(a[2].i)
+		}
+		if err != nil {
+			return "ERR"
+		}
+		sc := sig.Compress()
+		sig2, err := sc.Decompress()
+		if err != nil {
+			return "ERR-DECODE-SIG"
+		}
+		pkc := k.Public().Compress()
+		pk2, err := pkc.Decompress()
+		if err != nil {
+			return "ERR-DECODE-PK"
+		}
+		if a[0].tok == "p" {
+			err = pk2.VerifyPoseidon(a[2].i, sig2)
+		} else {
+			err = pk2.VerifyMimc7(a[2].i, sig2)
+		}
+		if err != nil {
+			return "REJECTED"
+		}
+		return "ok"
+	case "infieldarr":
+		return boolS(utils.CheckBigIntArrayInField(a[0].l))
 	case "mul":
 		return kP(babyjub.NewPoint().Mul(a[0].i, mkPoint(a[1].i, a[2].i)))
 	case "mulrecv": // receiver and returned value
@@ -435,7 +502,7 @@ func dispatch(op string, a []val) string {
 		return xB(r[:])
 	case "unpacksigny":
 		s, y := babyjub.UnpackSignY(arr32(a[0].b))
-		return boolS(s) + " " + bI(y)
+		return boolS(s) + " " + kI(y)
 	case "compress":
 		r := mkPoint(a[0].i, a[1].i).Compress()
 		return xB(r[:])
@@ -444,7 +511,7 @@ func dispatch(op string, a []val) string {
 		if err != nil {
 			return "ERR"
 		}
-		return pt(p)
+		return kP(p)
 	case "decompressrecv":
 		p := mkPoint(big.NewInt(7), big.NewInt(9))
 		r, err := p.Decompress(arr32(a[0].b))
@@ -457,7 +524,7 @@ func dispatch(op string, a []val) string {
 		if err != nil {
 			return "ERR"
 		}
-		return pt(p)
+		return kP(p)
 	// ---- eddsa
 	case "sk2int":
 		k := babyjub.PrivateKey(arr32(a[0].b))
@@ -466,7 +533,7 @@ func dispatch(op string, a []val) string {
 		k := babyjub.PrivateKey(arr32(a[0].b))
 		return kP(k.Public().Point())
 	case "scalarpublic":
-		return pt(babyjub.NewPrivKeyScalar(a[0].i).Public().Point())
+		return kP(babyjub.NewPrivKeyScalar(a[0].i).Public().Point())
 	case "scalarseq": // one PrivKeyScalar object used for several derivations in sequence
 		k := babyjub.PrivateKey(arr32(a[0].b))
 		sc := k.Scalar()
@@ -523,7 +590,7 @@ func dispatch(op string, a []val) string {
 		if err != nil {
 			return "ERR"
 		}
-		return pt(r.R8) + " " + bI(r.S)
+		return kP(r.R8) + " " + kI(r.S)
 	case "pkcomp":
 		pk := babyjub.PublicKey(*mkPoint(a[0].i, a[1].i))
 		r := pk.Compress()
@@ -534,7 +601,7 @@ func dispatch(op string, a []val) string {
 		if err != nil {
 			return "ERR"
 		}
-		return pt(r.Point())
+		return kP(r.Point())
 	case "pkmarshal":
 		pk := babyjub.PublicKey(*mkPoint(a[0].i, a[1].i))
 		t, err := pk.MarshalText()
@@ -647,13 +714,13 @@ func dispatch(op string, a []val) string {
 		if err != nil {
 			return "ERR"
 		}
-		return bI(r)
+		return kI(r)
 	case "poseidonex":
 		r, err := poseidon.HashEx(a[1].l, int(a[0].i.Int64()))
 		if err != nil {
 			return "ERR"
 		}
-		return lI(r)
+		return kL(r)
 	case "gold": // [12 words]: 8 inputs then 4 capacity
 		var in [8]uint64
 		var cp [4]uint64
@@ -687,13 +754,13 @@ func dispatch(op string, a []val) string {
 		if err != nil {
 			return "ERR"
 		}
-		return bI(r)
+		return kI(r)
 	case "mimcbytes":
 		r, err := mimc7.HashBytes(a[0].b)
 		if err != nil {
 			return "ERR"
 		}
-		return bI(r)
+		return kI(r)
 	case "keccak":
 		data := make([][]byte, len(a))
 		for i := range a {
@@ -1001,6 +1068,13 @@ func ffOpIn(backend, op string, a []val, keep func(*ff.Element)) string {
 			return "nil " + ffRaw(&d)
 		}
 		return ffRaw(r) + " " + ffRaw(&d)
+	case "sqrtalias": // x.Sqrt(&x): destination is the operand
+		x := el(0)
+		r := x.Sqrt(&x)
+		if r == nil {
+			return "nil " + ffRaw(&x)
+		}
+		return ffRaw(r) + " " + ffRaw(&x)
 	case "bit": // raw limbs, as documented
 		x := el(0)
 		keep(&x)
@@ -1244,6 +1318,17 @@ func ffgOpIn(op string, a []val, keep func(*ffg.Element)) string {
 			return "nil " + ffgRaw(&d)
 		}
 		return ffgRaw(r) + " " + ffgRaw(&d)
+	case "sqrtalias":
+		x := el(0)
+		r := x.Sqrt(&x)
+		if r == nil {
+			return "nil " + ffgRaw(&x)
+		}
+		return ffgRaw(r) + " " + ffgRaw(&x)
+	case "butterflyalias": // Butterfly(&x, &x)
+		x := el(0)
+		ffg.Butterfly(&x, &x)
+		return ffgRaw(&x)
 	case "bit": // raw limbs, as documented
 		x := el(0)
 		keep(&x)
